@@ -473,6 +473,12 @@ package godi
 //@   at before return#7 : assert[C10,C02] void_marker_stored_once: ncalls("scope.storeOutput") == 0 && ncalls("scope.setInstance") == 1 && callarg("scope.setInstance", 0, 1) == descriptor
 //@   at before return#8 : assert[C15] no_results_stores_nothing: ncalls("scope.setInstance") == 0 && ncalls("scope.storeOutput") == 0 && ncalls("scope.setAliasedInstance") == 0
 //@   at before return#9 : assert[C15] bad_result_object_stores_nothing: ncalls("scope.setInstance") == 0 && ncalls("scope.storeOutput") == 0 && ncalls("scope.setAliasedInstance") == 0
+// C10: what an invocation has produced stays owned also when the invocation is rejected for a nil output, and an object is handed to the
+// disposal tracking once per invocation on every path (stored outputs, outputs of removed registrations, unstored result objects)
+//@   at before return#14 : assert[C10] rejected_outputs_stay_owned: forall j int :: 0 <= j && j < len(info.Returns) && !info.Returns[j].IsError && ext("(reflect.Value).Interface", "any", results[info.Returns[j].Index]) != nil ==>
+//@        (exists c int :: 0 <= c && c < ncalls("scope.trackOnly") && callarg("scope.trackOnly", c, 0) == s && callarg("scope.trackOnly", c, 2) == ext("(reflect.Value).Interface", "any", results[info.Returns[j].Index]))
+//@   at before call s.trackOnly#1 : assert[C10] an_object_is_tracked_once_per_invocation_removed_field: forall c int :: 0 <= c && c < ncalls("scope.storeOutput") ==> callarg("scope.storeOutput", c, 3) != value
+//@   at before call s.trackOnly#2 : assert[C10] an_object_is_tracked_once_per_invocation_removed_return: forall c int :: 0 <= c && c < ncalls("scope.storeOutput") ==> callarg("scope.storeOutput", c, 3) != value
 //@   ghost ownSeen bool
 //@   ghost ownVal any
 //@   at before call s.storeOutput#1 : ghost ownVal := ite(regDescriptor == descriptor, value, ownVal)
@@ -554,6 +560,7 @@ package godi
 //@   requires recv: s != nil && s.rootProvider != nil
 //@   ensures[C10] every_value_stays_owned: ncalls("scope.trackOnly") == len(registrations) && (forall i int :: 0 <= i && i < len(registrations) ==>
 //@        callarg("scope.trackOnly", i, 0) == s && callarg("scope.trackOnly", i, 1) == lifetime && callarg("scope.trackOnly", i, 2) == registrations[i].Value)
+//@   at before call s.trackOnly#1 : assert[C10] an_object_is_tracked_once_per_invocation_unstored: forall c int :: 0 <= c && c < ncalls("scope.trackOnly") ==> callarg("scope.trackOnly", c, 2) != reg.Value
 //@   loop 1
 //@     invariant tracked_so_far: ncalls("scope.trackOnly") == idx && (forall i int :: 0 <= i && i < idx ==>
 //@        callarg("scope.trackOnly", i, 0) == s && callarg("scope.trackOnly", i, 1) == lifetime && callarg("scope.trackOnly", i, 2) == registrations[i].Value)
